@@ -532,6 +532,15 @@ class Engine:
         h = self.ctx_hook('store_subscript', st, recv, idx, v, node)
         if h is not None:
             return h
+        if isinstance(recv, IntDictV) and isinstance(idx, IntV) and isinstance(v, ObjV):
+            cell = st.heap[recv.oid]
+            d0, s0, kt, vt = cell['dom'], cell['sto'], idx.t, v.t
+            st.heap[recv.oid] = dict(cell, dom=lambda r: z3.If(r == kt, smt.T, d0(r)),
+                                     sto=lambda r: z3.If(r == kt, vt, s0(r)))
+            st.ghost['dict_writes'] = st.ghost.get('dict_writes', ()) + ((recv.oid, idx.t, v.t),)
+            return [st]
+        if isinstance(recv, InstV) and recv.oid != self.self_oid:
+            return [s2 for s2, _ in self.call_method(recv, '__setitem__', [idx, v], {}, st, node)]
         if isinstance(recv, CellListV) and isinstance(idx, IntV) and z3.is_int_value(idx.t):
             items = list(st.heap[recv.oid]['items'])
             items[idx.t.as_long()] = v
@@ -745,8 +754,10 @@ class Engine:
 
     def _stream_descr(self, sv):
         def elem(k):
-            return [Out(z3.Not(sv.raises(k)), value=sv.val(k), tag='elem'),
-                    Out(sv.raises(k), exc=ExcV(sv.exc(k)), tag='elem-raises')]
+            a = Out(z3.Not(sv.raises(k)), value=sv.val(k), tag='elem')
+            b = Out(sv.raises(k), exc=ExcV(sv.exc(k)), tag='elem-raises')
+            a.log = b.log = ('pull', sv.desc, k)
+            return [a, b]
         return sv.n(), elem
 
     def view_of(self, v, st):
@@ -782,6 +793,9 @@ class Engine:
             return [Outcome('normal', o.st) if o.kind == 'break' else o for o in outs]
 
         inv = self.ctx.loops.get(ordinal)
+        if inv is None and getattr(node, 'iter', None) is not None:
+            # alternatively an invariant may be keyed by what the loop iterates over
+            inv = self.ctx.loops.get('src:' + ast.unparse(node.iter))
         if inv is None:
             if yield_each:
                 inv = 'auto-yield-from'
@@ -905,6 +919,8 @@ class Engine:
                     for stb, side in self.branch(base.fork(*o.facts), o.cond):
                         if not side:
                             continue
+                        if getattr(o, 'log', None) is not None:
+                            self.log_effect(stb, o.log)
                         if o.exc is not None:
                             results.append(Outcome('raise', stb, exc=o.exc))
                         elif yield_each:
@@ -1045,7 +1061,7 @@ class Engine:
         if isinstance(recv, ModuleV):
             return [(st, self.module_attr(recv, attr))]
         if isinstance(recv, (ListV, SymSeqV, TupleV, CellListV, BuiltinV, ClassV, ClosureV, FnV, ObjV,
-                             StageV, IterV, StreamV, ExcV, StrV, KeyV, OpaqueV, DictV, DSTupleV, SymDictV, SuperV, QueueV,
+                             StageV, IterV, StreamV, ExcV, StrV, KeyV, OpaqueV, DictV, DSTupleV, SymDictV, SuperV, QueueV, IntDictV,
                              GenStreamV)):
             if isinstance(recv, ClassV) and attr == '__name__':
                 return [(st, OpaqueStrV())]
@@ -1189,7 +1205,18 @@ class Engine:
 
     def call_closure(self, f, args, kwargs, st):
         if isinstance(f.node, ast.Lambda):
-            raise Unsupported('lambda call')
+            params = [a.arg for a in f.node.args.args]
+            if len(params) != len(args) or kwargs or f.node.args.vararg or f.node.args.kwarg:
+                raise Unsupported('lambda call shape')
+            saved = dict(st.env)
+            s2 = st.fork()
+            s2.env = dict(getattr(f, 'def_env', None) or st.env)
+            for p_, a_ in zip(params, args):
+                s2.env[p_] = a_
+            res = self.eval(f.node.body, s2)
+            for s3, _ in res:
+                s3.env = dict(saved)
+            return res
         args, kwargs = self.flatten_args(args, kwargs)
         saved_ord, saved_fn = self.ordinals, self.fn
         sub = _loop_ordinals(f.node)
@@ -1313,6 +1340,10 @@ class Engine:
             if q is None:
                 raise Unsupported('super().%s' % name)
             return self.inline_call(q, [recv.inst] + args, kwargs, st)
+        if isinstance(recv, StageV):
+            h = self.ctx_hook('stage_method', st, recv, name, args, kwargs)
+            if h is not None:
+                return h
         if isinstance(recv, QueueV):
             return self.queue_method(recv, name, args, kwargs, st, node)
         if isinstance(recv, OpaqueV):
@@ -1432,6 +1463,10 @@ class Engine:
             h = self.ctx_hook('builtin_hook', st, name, args, kwargs, node)
             if h is not None:
                 return h
+            if name.startswith('repo.') and self.src.has_func('%s:%s' % (self.mod, name[5:])):
+                # module-level helper of the repository: executed inline (its own source)
+                args2, kw2 = self.flatten_args(args, kwargs)
+                return self.inline_call('%s:%s' % (self.mod, name[5:]), args2, kw2, st)
             if name.startswith('LOG.') or name.startswith('textwrap.') or name in ('repr', 'str', 'print') \
                     or name.startswith('warnings.'):
                 return [(st, OpaqueStrV())]
@@ -1568,6 +1603,9 @@ class Engine:
 
     def bi_map(self, args, kwargs, st, node):
         """map(f, ds): lazy; element k is f(OUT(ds,k)), applied when the element is pulled."""
+        h = self.ctx_hook('builtin_hook', st, 'map', args, kwargs, node)
+        if h is not None:
+            return h
         if len(args) != 2:
             raise Unsupported('map with %d args' % len(args))
         f, x = args
@@ -2143,6 +2181,8 @@ class Engine:
                     raise Unsupported('membership test of %r in %r' % (x, container))
                 cs.append(c)
             return z3.Or(*cs) if cs else smt.F
+        if isinstance(container, IntDictV) and isinstance(x, IntV):
+            return st.heap[container.oid]['dom'](x.t)
         h = self.ctx_hook('contains_hook', st, container, x)
         if h is not None:
             return h
@@ -2177,6 +2217,15 @@ class Engine:
             return self.ds_getitem(view, idx, st)
         if isinstance(recv, InstV):
             return self.call_method(recv, '__getitem__', [idx], {}, st, node)
+        if isinstance(recv, IntDictV) and isinstance(idx, IntV):
+            cell = st.heap[recv.oid]
+            res = []
+            for s2, side in self.branch(st, cell['dom'](idx.t)):
+                if side:
+                    res.append((s2, ObjV(cell['sto'](idx.t))))
+                else:
+                    self.raise_(s2, self.new_exc(s2, 'KeyError'))
+            return res
         if isinstance(recv, SymDictV) and isinstance(idx, KeyV):
             p = recv.kpos(idx.t)
             res = []
@@ -2228,8 +2277,16 @@ class Engine:
             return h
         raise Unsupported('dict display')
 
+    def expr_DictComp(self, node, st):
+        h = self.ctx_hook('dict_comp', st, node)
+        if h is not None:
+            return h
+        raise Unsupported('dict comprehension')
+
     def expr_Lambda(self, node, st):
-        return [(st, ClosureV(node, None))]
+        c = ClosureV(node, None)
+        c.def_env = dict(st.env)
+        return [(st, c)]
 
     def expr_ListComp(self, node, st):
         return self.comprehension(node, st, 'list')
@@ -2307,6 +2364,14 @@ class GenStreamV(Val):
         self.length = length
         self.elem = elem
         self.desc = desc
+
+
+class IntDictV(Val):
+    """A python dict int -> object in the heap: dom (Array Int Bool), sto (Array Int Obj)."""
+    kind = 'intdict'
+
+    def __init__(self, oid):
+        self.oid = oid
 
 
 class EmptyDictV(Val):
